@@ -83,6 +83,7 @@ structure World where
   kbs : List (String × KB) := []          -- "<lib>/<name>:<ver>"
   insts : List (String × Instance) := []
   stored : List (String × KB) := []       -- handle ↦ what a load of that stream yields
+  lastHex : String := ""                  -- the stream of the last `wire` op
   deriving Inhabited
 
 def World.kb (w : World) (k name ver : String) : KB := (assocGet k w.kbs).getD { name := name, version := ver }
@@ -377,7 +378,7 @@ def doOp (w : World) (op : Json) : P (World × Json) := do
       else pure ({ w with kbs := assocSet key kb w.kbs },
         Json.mkObj [("ok", .bool true), ("rules", rulesJ kb.entries), ("name", jstr kb.name), ("version", jstr kb.version)])
   | "loadhex" =>
-    let bs := hexBytes (get "hex")
+    let bs := hexBytes (if get "hex" == "" then w.lastHex else get "hex")
     let bs ← match fieldOpt op "cut" with
       | some c => do pure (bs.take (← nat c))
       | none => pure bs
@@ -385,6 +386,7 @@ def doOp (w : World) (op : Json) : P (World × Json) := do
     | .ok _ => pure (w, Json.mkObj [("ok", .bool true)])
     | .error _ => pure (w, Json.mkObj [("ok", .bool false)])
   | "wire" =>
+    let w := { w with lastHex := get "hex" }
     let bs := hexBytes (get "hex")
     match Wire.catalogDec bs with
     | .error e => pure (w, Json.mkObj [("decoded", .bool false), ("err", jstr (reprStr e))])
